@@ -507,6 +507,9 @@ class AtomicWriter(Generic[IOKindT]):
 
         for i in _itertools.count(start=1):
             self._temp_name = self.filename.with_name(f'tmp_{i}')
+            if self._temp_name == self.filename:
+                # The destination itself must never be used as the temporary file.
+                continue
             try:
                 if self.is_bytes:  # type checkers can't narrow self from this!
                     self.temp = self._temp_name.open('xb')  # type: ignore
